@@ -121,6 +121,10 @@ pub struct Chip126x {
     pending: VecDeque<Ev>,
     pub op: Option<OpKind>,
     pulse: bool,
+    /// Model time stands still between GetIrqStatus and the next other command, so that no
+    /// interrupt is raised in the window in which a "read, then clear all" driver would lose it.
+    pub irq_safe: bool,
+    hold: bool,
     cmd_status: u8,
     /// status byte forced onto GetRxBufferStatus / GetPacketStatus / GetRssiInst answers
     pub status_override: Option<u8>,
@@ -172,6 +176,8 @@ impl Chip126x {
             pending: VecDeque::new(),
             op: None,
             pulse: false,
+            irq_safe: true,
+            hold: false,
             cmd_status: 1,
             status_override: None,
             report_override: None,
@@ -307,7 +313,6 @@ impl Chip126x {
             (OpKind::Tx, EvKind::Timeout) => {
                 self.raise(IRQ_TIMEOUT);
                 self.mode = Mode::Stdby;
-                self.cmd_status = 3;
                 self.abort_op();
             }
             (OpKind::Tx, _) => {}
@@ -344,7 +349,6 @@ impl Chip126x {
                 if !self.rx_continuous {
                     self.raise(IRQ_TIMEOUT);
                     self.mode = Mode::Stdby;
-                    self.cmd_status = 3;
                     self.abort_op();
                 }
             }
@@ -367,6 +371,7 @@ impl Chip126x {
             }
         };
         let op = mosi[0];
+        self.hold = self.irq_safe && op == GET_IRQ_STATUS;
         match op {
             GET_STATUS => put(1, st),
             SET_SLEEP => {
@@ -571,7 +576,7 @@ impl ChipModel for Chip126x {
         if self.busy_left > 0 {
             self.busy_left -= 1;
         }
-        if self.op.is_some() {
+        if self.op.is_some() && !self.hold {
             if let Some(f) = self.pending.front_mut() {
                 if f.after > 0 {
                     f.after -= 1;
@@ -586,6 +591,7 @@ impl ChipModel for Chip126x {
     }
 
     fn irq_line(&mut self) -> bool {
+        self.hold = false;
         if self.pulse {
             self.pulse = false;
             return true;
